@@ -652,8 +652,11 @@ CHECKS["C06"].update({
              "chainPar_silent_iff (any list of pairwise different rules: the chain records no error iff every member alone records none; "
              "skip_reports + equal flags => nobody skips while one side is quiet), hence chain_silent_iff_alone, verdict_iff_alone and, for the "
              "chain /repo runs (runM = the model the driver answers with), chainM_silent_iff_alone, chainM_silent_iff_spec / verdictM_iff_spec "
-             "(accepted iff no exception and the clauses of all 26 rules hold) and chainM_six_transformations (verdict of the chain invariant "
-             "under the six transformations). Structural theorems for EVERY rule list: typeinfo_balanced / selections_balanced / definitions_balanced, "
+             "(accepted iff no exception and the clauses of all 26 rules hold; headline for /repo HEAD: verdict_chain_iff), chainM_attribution "
+             "(exactly one clause violated => the chain's error list contains an error of THAT rule's visitor; chainPar_attribution) and "
+             "chainM_six_transformations (verdict of the chain invariant under the six transformations). The older *_all* theorems are about "
+             "the 26 rules run ALONE (said in each doc comment); Silent counts recorded errors only, the exception flag is an explicit conjunct "
+             "of the chain statements. Structural theorems for EVERY rule list: typeinfo_balanced / selections_balanced / definitions_balanced, "
              "skip_reports (a rule that skips has just added an error), rule_single_field_subscriptions_declarative_iff (CollectFields restricted to keys = "
              "reachable response keys). TIED by correspondence (model chain vs validate_ast: verdict on every document; set of reporting rules on documents "
              "with at most one injected violation; every rule standalone; memoised vs un-memoised model cross-check per document; schema and rule-instance "
